@@ -171,11 +171,13 @@ stat:
             $$.SetLastLine($7.Pos.Line)
         } |
         TFunction funcname funcbody {
+            $3.SetLine($1.Pos.Line)
             $$ = &ast.FuncDefStmt{Name: $2, Func: $3}
             $$.SetLine($1.Pos.Line)
             $$.SetLastLine($3.LastLine())
         } |
         TLocal TFunction TIdent funcbody {
+            $4.SetLine($2.Pos.Line)
             $$ = &ast.LocalAssignStmt{Names:[]string{$3.Str}, Exprs: []ast.Expr{$4}}
             $$.SetLine($1.Pos.Line)
             $$.SetLastLine($4.LastLine())
